@@ -208,7 +208,7 @@ fn gen_dlt_corpus(rng: &mut Rng) -> (Vec<u8>, Vec<(usize, usize)>) {
     let mut spans = vec![];
     for (i, t) in trace.iter().enumerate() {
         let mut d: DltMessage = if sp.chance(1, 3) {
-            crate::c19::build(&crate::c19::PMsg { t: t.clone(), special: 1 + sp.below(5) as u8, variant: sp.u32() }, i as u32)
+            crate::c19::build(&crate::c19::PMsg { t: t.clone(), special: 1 + sp.below(7) as u8, variant: sp.u32() }, i as u32)
         } else {
             t.to_dlt(i as u32)
         };
